@@ -24,6 +24,14 @@ Real classes (every Message subclass, by introspection):
    without the allowed_sign_alg keyword; BackChannelLogoutRequest also against Model/MsgCheck.v bclogout_verify;
  * request objects: every class that declares a `request` parameter x complete / incomplete outer request x
    validly signed complete / incomplete object (the message as it stands after the merge) + forgeries.
+ * reserved members of the verifier's own bookkeeping (`__verified_<claim>`, idpyoidc.verified_claim_name): every class
+   that unpacks an embedded signed object (discovered: a validly signed object is verified and the member the copy
+   appears under is noted) x reserved name x delivery form (constructor, from_dict, from_json, from_urlencoded, item
+   assignment, claims of a signed JWT, CLAIM OF THE SIGNED REQUEST OBJECT) x reserved member {absent, forged claims /
+   text / message object, stale: left by an earlier accepting verify() - live, after a JSON / dict round trip} x raw
+   claim {absent, validly signed, signature altered, replaced by another validly signed object}; oracle: what the
+   message holds under a reserved name after an accepting verify() is the content of the validly signed object it
+   carried into THIS verify(), or nothing; all rows through the models of the verify() functions (Model/MsgVerified.v).
  * WHICH schema (the declared one): every class body's c_param / c_default / c_allowed_values evaluated from the SOURCE
    TEXT by value (harness/schema_decl.py) against the tables of the class objects after the whole package has been
    imported (an entry that differs = another class body / module changed this class's schema at import time: a message
@@ -75,8 +83,13 @@ RULE = ("the schema every oracle below judges by is the DECLARED one: c_param / 
         "for every class declaring a `request` parameter: outer request {complete, each required parameter removed, "
         "only client_id} x validly signed object {complete, each required parameter omitted, only optional, none of "
         "the required} + no object / request_uri + the forgeries of a complete object, judged on the message as it "
-        "stands after verify(). A case is one (class, parameter, fault) cell; non-trivial when the class accepted "
-        "the unfaulted message")
+        "stands after verify(); reserved-member matrix: every class found to unpack an embedded signed object x reserved name "
+        "(verified_claim_name) x {constructor, from_dict, from_json, from_urlencoded, item assignment, claims of a signed JWT, "
+        "claim of the signed request object} x reserved member {absent, forged claims / text / object, stale after an earlier "
+        "accepting verify(): live / JSON round trip / dict round trip} x raw claim {absent, validly signed, signature altered, "
+        "replaced by another validly signed object}, oracle = a reserved member held after an accepting verify() is the content "
+        "of the validly signed object carried into this verify(). A case is one (class, parameter, fault) cell; non-trivial "
+        "when the class accepted the unfaulted message")
 ASSUMPTIONS = ["cryptojwt JWS verification is correct (exercised: tampered and foreign-key tokens)",
                "JSON floats are outside the Gallina value universe: the float row of the type matrix is oracle-only",
                "the left-half hash of at_hash / c_hash is an environment function of the model: a finite table computed "
@@ -2154,18 +2167,422 @@ class Run:
                                            self.coq_token(shape, canon(dict(payload._dict))), coq_msg(before))
         self.cases["bclogout"].append(("(%s, %s)" % (inp, res), inp, rec))
 
+    # ------------------------------------------------------------ F. reserved members: the verifier's own bookkeeping
+    # "an embedded signed object (request object, ID token, logout token) is accepted only with a valid signature", about
+    # the message AS IT STANDS AFTER VERIFICATION: verify() stores the parsed content of the embedded object under a
+    # reserved member (idpyoidc.verified_claim_name(claim) = "__verified_<claim>") that the code running after it reads
+    # as "the verified ID Token / request object / logout token".  A message can ALREADY hold such a member when it is
+    # presented to verify(): the peer wrote the name into the wire form, or an earlier verify() left it there and the
+    # raw claim has been removed / damaged / replaced since.  Afterwards, whatever the message holds under a reserved
+    # name must be the content of an object whose signature was verified in THIS verification, or nothing.
+    EMBEDDED = ("id_token", "id_token_hint", "request", "logout_token")
+    V_ISS = "https://op.example"
+    V_IMP = IMP + ["Model.MsgVerified"]
+    V_KINDS = (("v_idt", "idt_resp_case * res (bool * msg)", "chk_authzresp_idt", "m_authzresp_idt"),
+               ("v_esr", "esr_case * res (bool * msg)", "chk_endsession_hint", "m_endsession_hint"),
+               ("v_request", "request_case * res msg", "chk_request_v", "m_request_v"),
+               ("v_ciba", "ciba_case * res msg", "chk_ciba_v", "m_ciba_v"),
+               ("v_bclogout", "bclogout_case * res msg", "chk_bclogout", "m_bclogout"),
+               ("v_authz", "pystr * option pystr * msg * res msg", "chk_authz_v", "m_authz_v"))
+
+    @staticmethod
+    def claims_norm(d):
+        """claims for comparison: a one-element list and its element, a space-separated text and its list are the
+        same value (aud, scope, response_type)"""
+        if not isinstance(d, dict):
+            return d
+        # a nested value (the `events` member of a logout token: JSON text / dict / message, depending on the path) is
+        # compared by its JSON form
+        def nested(v):
+            if isinstance(v, dict) and set(v) == {"__msg__", "d"}:
+                v = v["d"]
+            if isinstance(v, str):
+                try:
+                    v = json.loads(v)
+                except ValueError:
+                    pass
+            return json.dumps(v, sort_keys=True, default=str)
+        return {k: (tuple(str(x) for x in v) if isinstance(v, list) and all(isinstance(x, (str, int)) for x in v)
+                    else tuple(v.split(" ")) if isinstance(v, str) and not v.startswith("{") else v if isinstance(v, (int, bool)) or v is None
+                    else nested(v))
+                for k, v in d.items()}
+
+    @staticmethod
+    def pure_obj(d):
+        """a canonical message whose top-level values are JSON values or message objects with JSON content"""
+        return all(pure_json(v) or (isinstance(v, dict) and set(v) == {"__msg__", "d"} and pure_json(v["d"])) for v in d.values()) \
+            and all(isinstance(k, str) and pure_json(k) for k in d)
+
+    def emb_kwargs(self, claim):
+        return {"id_token": {"iss": self.V_ISS, "client_id": "c"}, "id_token_hint": {"iss": self.V_ISS, "client_id": "c"},
+                "logout_token": {"iss": self.V_ISS, "aud": "c"}, "request": {}}[claim]
+
+    def emb_object(self, cls, claim, who):
+        """a validly signed embedded object of the kind `claim`: (compact text, claims); `who` in A, B: two different
+        valid objects"""
+        from idpyoidc.message import Message
+        from idpyoidc.message.oidc import IdToken
+        from idpyoidc.message.oidc.session import LogoutToken, BACK_CHANNEL_LOGOUT_EVENT
+        NOW, iss = self.NOW, self.V_ISS
+        sub = {"A": "alice", "B": "bob"}[who]
+        if claim in ("id_token", "id_token_hint"):
+            payload, signer = IdToken(iss=iss, sub=sub, aud=["c"], exp=NOW + 600, iat=NOW), iss
+        elif claim == "logout_token":
+            payload, signer = LogoutToken(iss=iss, sub=sub, aud=["c"], iat=NOW, jti="j" + who, events={BACK_CHANNEL_LOGOUT_EVENT: {}}), iss
+        else:
+            req = {k: self.RO_VALUES.get(k, C.plain_value(e)) for k, e in cls.c_param.items() if e[1] and k != "*"}
+            req.setdefault("client_id", "c")
+            # the claims a request object carries as a JWT (the CIBA request object's class requires them)
+            req.update({"iss": "c", "aud": [iss], "exp": NOW + 600, "nbf": NOW, "iat": NOW, "jti": "j" + who})
+            req.update({"state": "s" + who} if "state" in cls.c_param else {"x_object": who})
+            req.pop(claim, None)
+            payload, signer = Message(**req), "c"
+        txt = payload.to_jwt(key=self.kj.get_signing_key("RSA", signer), algorithm="RS256")
+        return txt, self.jwt_parts(txt)[1]
+
+    def emb_bases(self, cls, claim):
+        """outer messages to carry the embedded object in: the class's required parameters, and - for a request
+        object - the stub that carries nothing but the client and the object"""
+        full = {k: self.RO_VALUES.get(k, C.plain_value(e)) for k, e in cls.c_param.items() if e[1] and k != "*" and k != claim}
+        if "client_id" in cls.c_param:
+            full.setdefault("client_id", "c")
+        out = [full]
+        if claim == "request" and full != {"client_id": "c"}:
+            out.append({"client_id": "c"})
+        return out
+
+    def discover_embedding(self):
+        """[(class name, class, raw claim, outer base, verify kwargs, A, B, reserved names)] for every Message
+        subclass x declared parameter named like an embedded signed object whose verify() - given an otherwise valid
+        message with a validly signed object - leaves the object's content in the message under some member: that
+        member and verified_claim_name(claim) are the reserved names of the pair."""
+        from idpyoidc import verified_claim_name
+        from idpyoidc.message import Message
+        ctx = self.ctx
+        pairs = []
+        for name, cls in self.classes:
+            for claim in self.EMBEDDED:
+                if claim not in cls.c_param:
+                    continue
+                kw = self.emb_kwargs(claim)
+                found = None
+                for base in self.emb_bases(cls, claim):
+                    b = attempt(lambda: (self.emb_object(cls, claim, "A"), self.emb_object(cls, claim, "B")))
+                    if b[0] == "exc":
+                        break
+                    A, B = b[1]
+                    mb = attempt(lambda: cls(**dict(copy.deepcopy(base), **{claim: A[0]})))
+                    if mb[0] == "exc":
+                        continue
+                    m = mb[1]
+                    had = {k for k, v in m._dict.items() if isinstance(v, Message)}
+                    out = self.class_verify(m, keyjar=self.kj, **kw)
+                    if out[0] != "accepted":
+                        continue
+                    written = sorted(k for k, v in m._dict.items() if isinstance(v, Message) and k not in had
+                                     and self.claims_norm(canon(v)["d"]) == self.claims_norm(A[1]))
+                    if written:
+                        found = (base, written, A, B)
+                        break
+                if found is None:
+                    ctx.count("reserved:declares-but-does-not-unpack:%s" % claim)
+                    continue
+                base, written, A, B = found
+                # reserved = the name verified_claim_name gives; anything else verify() wrote the copy under is injected
+                # as well but judged as an observation only (nothing reads it as "verified")
+                names = [verified_claim_name(claim)] + sorted(set(written) - {verified_claim_name(claim)})
+                pairs.append((name, cls, claim, base, kw, A, B, names))
+                ctx.count("reserved:embedding-pairs")
+                ctx.count("reserved:embedding:%s:%s -> %s" % (self.short(name), claim, ",".join(written)))
+        return pairs
+
+    def reserved_members(self):
+        self.set_clock(True)
+        try:
+            self._reserved_members()
+        finally:
+            self.set_clock(False)
+
+    def _reserved_members(self):
+        """every class that embeds a signed object (discovered) x every reserved name of the pair
+             x delivery form {constructor, from_dict, from_json, from_urlencoded, item assignment, claims of a signed JWT}
+             x reserved member {absent, forged: a dict of plausible claims / a text / a message object,
+                                stale: left by an earlier accepting verify() of this message - on the live object,
+                                after a JSON round trip, after a dict round trip}
+             x raw claim {absent, validly signed A, signature altered, replaced by another validly signed object B}
+           (a request class that also declares request_uri: raw-absent rows with and without request_uri).
+           Oracle, on the message as it stands after an ACCEPTING verify(): a reserved member present afterwards holds the
+           claims of the raw object the message carried INTO this verify(), and that object is one of the validly signed
+           ones.  Every row also goes to the model of its verify() (Model/MsgRules.v, Model/Msg.v, Model/MsgCheck.v,
+           Model/MsgVerified.v) where one exists."""
+        from urllib.parse import urlencode
+        from idpyoidc.message import Message
+        ctx = self.ctx
+        self.v_tokens, self.v_terms = {}, set()
+        for k, _, _, _ in self.V_KINDS:
+            self.cases[k] = []
+        pairs = self.discover_embedding()
+        self.v_pairs = pairs
+        if not pairs:
+            ctx.broken.append("reserved members: no class was found that unpacks an embedded signed object")
+        FORGED = {"iss": self.V_ISS, "sub": "victim", "aud": ["c"], "exp": self.NOW + 3600, "iat": self.NOW, "client_id": "c",
+                  "response_type": "code", "scope": "openid", "redirect_uri": "https://attacker.example/cb"}
+        from idpyoidc import verified_claim_name
+        for name, cls, claim, base, kw, A, B, names in pairs:
+            bad = A[0][:-4] + ("AAAA" if A[0][-4:] != "AAAA" else "BBBB")
+            RAW = {"absent": None, "valid": A[0], "bad-signature": bad, "replaced": B[0]}
+            genuine = {A[0]: A[1], B[0]: B[1]}
+            # every reserved name of the class (one per embedded claim the class unpacks) is watched in every row
+            watch = [(verified_claim_name(p[2]), p[2]) for p in pairs if p[0] == name]
+            for p in pairs:
+                if p[0] == name:
+                    genuine.update({p[5][0]: p[5][1], p[6][0]: p[6][1]})
+            unreserved = names[1:]
+            companions = [{}] + ([{"request_uri": "https://rp/ro"}] if claim == "request" and "request_uri" in cls.c_param else [])
+
+            def args_of(raw, comp):
+                a = dict(copy.deepcopy(base), **comp)
+                if RAW[raw] is not None:
+                    a[claim] = RAW[raw]
+                return a
+
+            def judge(m, rec):
+                """run the real verify(), the oracle, the model hand-off"""
+                before_live = dict(m._dict)
+                before = canon(before_live)
+                raw0 = before_live.get(claim)
+                out = self.class_verify(m, keyjar=self.kj, **copy.deepcopy(kw))
+                after_live = dict(m._dict)
+                accepted = out[0] == "accepted"
+                ctx.case_seen(rec, accepted)
+                ctx.count("reserved:%s:%s" % (rec["reserved"].split(":")[0], "accepted" if accepted else "refused:" + str(out[1])))
+                if accepted:
+                    for n, cl in watch:
+                        if n not in after_live:
+                            continue
+                        held = after_live[n]
+                        shown = canon(held)
+                        raw_n = before_live.get(cl)
+                        if not (isinstance(raw_n, str) and raw_n in genuine):
+                            ctx.violation("verified-copy:unverified-kept:%s:%s" % (self.short(name), cl),
+                                          "verify(%s) of %s accepted a message that carried %s under %r and %s; afterwards the message "
+                                          "holds %r under %r - the content of no object whose signature this verification checked"
+                                          % (", ".join(["keyjar"] + sorted(kw)), name,
+                                             "nothing" if n not in before else repr(self.short_jws(before[n])), n,
+                                             "no %r at all" % cl if raw_n is None else "a %r that is not validly signed" % cl,
+                                             self.short_jws(shown), n),
+                                          dict(rec, message_before=self.short_jws(before), message_after=self.short_jws(canon(after_live))))
+                        else:
+                            got = shown["d"] if isinstance(held, Message) else shown
+                            # names of the verifier's own bookkeeping are no claims of the object: a copy that leaves
+                            # them out (or carries them nested) is still the content of the signed object
+                            strip = lambda d: {k: v for k, v in d.items() if not k.startswith(verified_claim_name(""))} if isinstance(d, dict) else d  # noqa
+                            if self.claims_norm(strip(got)) != self.claims_norm(strip(genuine[raw_n])):
+                                ctx.violation("verified-copy:differs-from-signed:%s:%s" % (self.short(name), cl),
+                                              "verify() of %s accepted; afterwards %r holds %r, the signed %r the message carried says %r"
+                                              % (name, n, self.short_jws(got), cl, genuine[raw_n]),
+                                              dict(rec, message_before=self.short_jws(before), message_after=self.short_jws(canon(after_live))))
+                    for n in unreserved:
+                        # a copy under a name outside the verified_claim_name scheme (nothing reads it as verified)
+                        if n in after_live and not (isinstance(raw0, str) and raw0 in genuine):
+                            ctx.count("observation:copy-under-unreserved-name-kept-without-verification:%s:%s" % (self.short(name), n))
+                    if isinstance(raw0, str) and raw0 in genuine and not any(n in after_live for n, _ in watch):
+                        ctx.count("reserved:accepted-without-a-verified-copy")
+                    self.schema_oracle(name, cls, m, rec, "verify()", merged=claim == "request")
+                self.reserved_model(name, cls, claim, kw, genuine, before, canon(after_live), raw0, out, rec)
+                return out
+
+            def build(form, args, n, forged):
+                """the message holding `args` and (n is not None) the reserved member n = forged, along one delivery form"""
+                extra = {} if n is None else {n: forged}
+                if form == "constructor":
+                    return cls(**dict(copy.deepcopy(args), **copy.deepcopy(extra)))
+                if form == "from_dict":
+                    return cls().from_dict(dict(copy.deepcopy(args), **copy.deepcopy(extra)))
+                if form == "from_json":
+                    return cls().from_json(json.dumps(dict(args, **extra)))
+                if form == "from_urlencoded":
+                    flat = {k: (" ".join(v) if isinstance(v, list) else v) for k, v in args.items()}
+                    return cls().from_urlencoded(urlencode(dict(flat, **{k: (v if isinstance(v, str) else json.dumps(v)) for k, v in extra.items()})))
+                if form == "setitem":
+                    m = cls(**copy.deepcopy(args))
+                    for k, v in extra.items():
+                        m[k] = copy.deepcopy(v)
+                    return m
+                if form == "jwt-claims":
+                    txt = Message(**dict(copy.deepcopy(args), **copy.deepcopy(extra))).to_jwt(
+                        key=self.kj.get_signing_key("RSA", "c"), algorithm="RS256")
+                    return cls().from_jwt(txt, keyjar=self.kj, key=self.kj.get_signing_key("RSA", "c"))
+                raise ValueError(form)
+
+            FORMS = ("constructor", "from_dict", "from_json", "from_urlencoded", "setitem", "jwt-claims")
+            # ---- reserved member absent: the plain rows (raw claim x constructor / from_json)
+            for raw in ("absent", "valid", "bad-signature"):
+                for comp in (companions if raw == "absent" else [{}]):
+                    for form in ("constructor", "from_json"):
+                        rec = {"class": name, "embedded": claim, "reserved": "absent", "raw_claim": raw, "form": form,
+                               "args": self.short_jws(args_of(raw, comp)), "verify_kwargs": kw}
+                        b = attempt(lambda: build(form, args_of(raw, comp), None, None))
+                        if b[0] == "exc":
+                            ctx.count("reserved:not-constructible:" + form)
+                            continue
+                        judge(b[1], rec)
+            # ---- forged by the peer: the reserved name inside the wire form
+            for n in names:
+                for raw in ("absent", "valid", "bad-signature"):
+                    for comp in (companions if raw == "absent" else [{}]):
+                        for form in FORMS:
+                            shapes = [("claims", FORGED)] + ([("text", "forged")] if form in ("constructor", "from_urlencoded") else []) \
+                                + ([("object", Message(**FORGED))] if form == "setitem" else [])
+                            for stag, forged in shapes:
+                                rec = {"class": name, "embedded": claim, "reserved": "forged:%s" % stag, "reserved_name": n,
+                                       "raw_claim": raw, "form": form, "args": self.short_jws(args_of(raw, comp)),
+                                       "forged_member": canon(forged), "verify_kwargs": kw}
+                                b = attempt(lambda: build(form, args_of(raw, comp), n, forged))
+                                if b[0] == "exc":
+                                    ctx.count("reserved:not-constructible:" + form)
+                                    continue
+                                if n not in b[1]._dict:
+                                    ctx.count("reserved:dropped-by-the-delivery-form:" + form)
+                                judge(b[1], rec)
+            # ---- forged by the peer, delivered as a CLAIM OF THE (validly signed) REQUEST OBJECT: the classes that unpack
+            #      a request object merge its claims into the message
+            if claim == "request":
+                others = sorted({verified_claim_name(c) for c in self.EMBEDDED} | {n for p in pairs if p[0] == name for n in p[7]})
+                for n in others:
+                    payload = dict(A[1], **{n: FORGED})
+                    txt = Message(**copy.deepcopy(payload)).to_jwt(key=self.kj.get_signing_key("RSA", "c"), algorithm="RS256")
+                    genuine[txt] = self.jwt_parts(txt)[1]
+                    for form in ("constructor", "from_json", "from_urlencoded"):
+                        args = dict(copy.deepcopy(base), **{claim: txt})
+                        rec = {"class": name, "embedded": claim, "reserved": "forged:claim-of-the-signed-request-object", "reserved_name": n,
+                               "raw_claim": "valid", "form": form, "args": self.short_jws(args), "object_claims": payload, "verify_kwargs": kw}
+                        b = attempt(lambda: build(form, args, None, None))
+                        if b[0] == "exc":
+                            ctx.count("reserved:not-constructible:" + form)
+                            continue
+                        judge(b[1], rec)
+            # ---- stale: left by an earlier accepting verify() of the same message
+            for raw in ("absent", "valid", "bad-signature", "replaced"):
+                for comp in (companions if raw == "absent" else [{}]):
+                    for carry in ("live", "json-round-trip", "dict-round-trip"):
+                        m = cls(**args_of("valid", {}))
+                        first = self.class_verify(m, keyjar=self.kj, **copy.deepcopy(kw))
+                        if first[0] != "accepted" or not any(n in m._dict for n in names):
+                            ctx.count("reserved:stale:first-verification-left-nothing")
+                            continue
+                        m._dict.pop(claim, None)
+                        if RAW[raw] is not None:
+                            m[claim] = RAW[raw]
+                        for k, v in comp.items():
+                            m[k] = v
+                        if carry != "live":
+                            b = attempt(lambda: cls().from_json(m.to_json()) if carry == "json-round-trip" else cls().from_dict(m.to_dict()))
+                            if b[0] == "exc":
+                                ctx.count("reserved:not-constructible:" + carry)
+                                continue
+                            m = b[1]
+                        rec = {"class": name, "embedded": claim, "reserved": "stale:%s" % carry, "raw_claim": raw,
+                               "history": ["%s(%s).verify(%s) -> accepted" % (cls.__name__, self.short_jws(args_of("valid", {})), ", ".join(["keyjar"] + sorted(kw))),
+                                           "raw claim %r: %s%s" % (claim, {"absent": "deleted", "valid": "kept", "bad-signature": "signature altered",
+                                                                           "replaced": "replaced by another validly signed object"}[raw],
+                                                                   ", %r set" % comp if comp else ""),
+                                           {"live": "same object", "json-round-trip": "to_json() -> from_json()",
+                                            "dict-round-trip": "to_dict() -> from_dict()"}[carry], "verify() again"],
+                               "verify_kwargs": kw}
+                        judge(m, rec)
+
+    def v_token(self, claims):
+        """the symbolic token of a validly signed object, defined once in front of the case files"""
+        # a JSON-text claim (`events` of a logout token) in parsed form, as the token object holds it (trusted JSON
+        # text layer, as in bclogout_case)
+        if isinstance(claims.get("events"), str):
+            claims = dict(claims, events=json.loads(claims["events"]))
+        key = json.dumps(claims, sort_keys=True)
+        if key not in self.v_tokens:
+            self.v_tokens[key] = ("vtok_%d" % len(self.v_tokens), "(TJws SigValid %s %s)" % (coq_str("RS256"), coq_msg(self.short_jws(claims))))
+        return self.v_tokens[key][0]
+
+    V_OWNERS = {"idpyoidc.message.oidc.AccessTokenResponse.verify": "tokenresp",
+                "idpyoidc.message.oidc.AuthorizationResponse.verify": "authzresp",
+                "idpyoidc.message.oidc.session.EndSessionRequest.verify": "esr",
+                "idpyoidc.message.oauth2.JWTSecuredAuthorizationRequest.verify": "jar",
+                "idpyoidc.message.oauth2.PushedAuthorizationRequest.verify": "par",
+                "idpyoidc.message.oidc.backchannel_authentication.AuthenticationRequest.verify": "ciba",
+                "idpyoidc.message.oidc.session.BackChannelLogoutRequest.verify": "bclogout",
+                "idpyoidc.message.oidc.AuthorizationRequest.verify": "authz"}
+
+    def reserved_model(self, name, cls, claim, kw, genuine, before, after, raw0, out, rec):
+        """one row of the reserved-member matrix for the model of the verify() the class runs"""
+        ctx = self.ctx
+        vf = cls.verify
+        owner = self.V_OWNERS.get("%s.%s" % (getattr(vf, "__module__", "?"), getattr(vf, "__qualname__", "?")))
+        if owner is None:
+            ctx.count("reserved:oracle-only:" + self.short(name))
+            return
+        if raw0 is not None and not (isinstance(raw0, str) and raw0 in genuine):
+            ctx.count("reserved:model-skipped:the-exceptions-of-cryptojwt-are-outside-the-model")
+            return
+        before, after = self.short_jws(before), self.short_jws(after)
+        if not (self.pure_obj(before) and self.pure_obj(after) and pure_json(kw)):
+            ctx.unmodelled += 1
+            return
+        if out[0] == "refused" and out[1] != "False" and out[1] not in C.EXC:
+            ctx.count("skipped-model:exception-class:" + str(out[1]))
+            return
+        tok = "TJunk" if raw0 is None else self.v_token(genuine[raw0])
+        issuers = coq_list([coq_str(i) for i in sorted({self.V_ISS, "c"}) if i in self.kj], "pystr")
+        mb, ma = self.coq_msg_obj(before), self.coq_msg_obj(after)
+        err = None if out[0] == "accepted" or out[1] == "False" else "(Err %s)" % C.EXC[out[1]]
+        res_bm = err or "(Ok (%s, %s))" % (E.coq_bool(out[0] == "accepted"), ma)
+        res_m = err or ("(Ok %s)" % ma if out[0] == "accepted" else None)
+        if owner in ("tokenresp", "authzresp"):
+            kind, res = "v_idt", res_bm
+            inp = "(%s, %s, %s, %s, %s, %s, (@nil (pystr * pystr * pystr)), %s, %s)" % (
+                E.coq_bool(owner == "authzresp"), coq_str(name), coq_str(self.IDT), E.coq_z(self.NOW), coq_msg(kw), issuers, tok, mb)
+        elif owner == "esr":
+            kind, res = "v_esr", res_bm
+            inp = "(%s, %s, %s, %s, %s, %s, %s)" % (coq_str(name), coq_str(self.IDT), E.coq_z(self.NOW), coq_msg(kw), issuers, tok, mb)
+        elif owner in ("jar", "par"):
+            kind, res = "v_request", res_m
+            inp = "(%s, %s, %s, %s, %s)" % (coq_str(owner), coq_str(name), coq_str(self.RO_CLASS), tok, mb)
+        elif owner == "ciba":
+            kind, res = "v_ciba", res_m
+            rt, ht = (tok, "TJunk") if claim == "request" else ("TJunk", tok)
+            inp = "(%s, %s, %s, %s, %s, %s, %s)" % (coq_str(name), coq_str(self.CIBA_JWT), coq_str(self.IDT), coq_msg(kw), rt, ht, mb)
+        elif owner == "bclogout":
+            kind, res = "v_bclogout", res_m
+            inp = "(%s, %s, %s, %s, %s, %s)" % (coq_str(name), coq_str("idpyoidc.message.oidc.session.LogoutToken"), E.coq_z(self.NOW),
+                                               coq_msg(kw), tok, mb)
+        else:
+            if any(k in before for k in ("request", "id_token_hint", "request_uri")):
+                ctx.count("reserved:oracle-only:oidc.AuthorizationRequest-with-an-embedded-object")
+                return
+            kind, res = "v_authz", res_m
+            inp = "(%s, None, %s)" % (coq_str(name), mb)
+        if res is None:
+            ctx.count("skipped-model:returned-False")
+            return
+        term = "(%s, %s)" % (inp, res)
+        if term in self.v_terms:
+            ctx.count("reserved:model-case-shared-between-forms")
+            return
+        self.v_terms.add(term)
+        self.cases[kind].append((term, inp, rec))
+
     def run_model(self):
         ctx = self.ctx
         for kind, ty, chk, fn in (("verify", "pystr * msg * res unit", "chk_verify", "m_verify"),
                                   ("construct", "pystr * msg * res msg", "chk_construct", "m_construct"),
-                                  ("authz", "pystr * option pystr * msg * res msg", "chk_authz", "m_authz"),
+                                  # the request classes: verify() = clear_verified_claims, then the transcribed body (Model/MsgVerified.v)
+                                  ("authz", "pystr * option pystr * msg * res msg", "chk_authz_v", "m_authz_v"),
                                   ("rules", "rules_case * res (bool * msg)", "chk_rules", "m_rules"),
-                                  ("request", "request_case * res msg", "chk_request", "m_request"),
+                                  ("request", "request_case * res msg", "chk_request_v", "m_request_v"),
                                   ("bclogout", "bclogout_case * res msg", "chk_bclogout", "m_bclogout"),
                                   ("authzresp_idt", "idt_resp_case * res (bool * msg)", "chk_authzresp_idt", "m_authzresp_idt"),
                                   # the presence tables of the set rules: always evaluated in full, never sampled
                                   ("setrules", "rules_case * res (bool * msg)", "chk_rules", "m_rules"),
-                                  ("ciba", "ciba_case * res msg", "chk_ciba", "m_ciba"),
+                                  ("ciba", "ciba_case * res msg", "chk_ciba_v", "m_ciba_v"),
                                   ("none_or_one", "list pystr * msg * res bool", "chk_none_or_one", "m_none_or_one")):
             cs = self.cases[kind]
             cap = (1200 if kind != "rules" else 4000) if ctx.quick else 10 ** 9
@@ -2178,9 +2595,16 @@ class Run:
                 C.check_cases(ctx, IMP, ty, chk, fn, cs, kind, shard=60, prelude=getattr(self, "idt_prelude", ""))
                 continue
             if kind in ("setrules", "ciba"):
-                C.check_cases(ctx, IMP, ty, chk, fn, cs, kind, shard=100, prelude=getattr(self, "ciba_prelude", "") if kind == "ciba" else "")
+                C.check_cases(ctx, self.V_IMP if kind == "ciba" else IMP, ty, chk, fn, cs, kind, shard=100,
+                              prelude=getattr(self, "ciba_prelude", "") if kind == "ciba" else "")
                 continue
-            C.check_cases(ctx, IMP, ty, chk, fn, cs, kind)
+            C.check_cases(ctx, self.V_IMP if kind in ("authz", "request") else IMP, ty, chk, fn, cs, kind)
+        # the reserved-member matrix: always evaluated in full, never sampled
+        prelude = "".join("Definition %s : token := %s.\n" % nt for nt in getattr(self, "v_tokens", {}).values())
+        for kind, ty, chk, fn in self.V_KINDS:
+            cs = self.cases.get(kind, [])
+            ctx.count("model-cases:" + kind, len(cs))
+            C.check_cases(ctx, self.V_IMP, ty, chk, fn, cs, kind, shard=80, prelude=prelude)
 
 
 def run(ctx):
@@ -2197,6 +2621,7 @@ def run(ctx):
     r.signed_objects()
     r.request_objects()
     r.hash_tables()
+    r.reserved_members()
     r.run_model()
     ctx.count("classes-whose-verify-accepted-the-base-message", len(r.accepting))
 
